@@ -20,11 +20,13 @@ CONSTANTS Offsets,     \* which length / count fields are overwritten: the n-th 
 Boundary == {"0", "1", "255", "2^16", "2^20", "2^24", "2^30", "2^31", "2^32", "2^36", "2^40", "2^44", "2^48", "2^56", "2^63-1", "2^63", "2^64-1", "len-1", "len+1", "len*2"}
 Loaders == {"grb", "grl", "jsonrule", "jsonfact"}
 Faults == {[loader |-> "grb", kind |-> "edit8", at |-> o, val |-> v, from |-> w] : o \in Offsets, v \in Boundary, w \in {"start", "end"}}
+          \* every integer field of the stream (the harness finds them with a recording reader) overwritten by a dangerous value
+          \cup {[loader |-> "grb", kind |-> "sweep8", at |-> 0, val |-> v, from |-> "start"] : v \in {"0", "len+1", "2^20", "2^24", "2^31", "2^36", "2^44", "2^63", "2^64-1"}}
           \cup {[loader |-> "grb", kind |-> "flip", at |-> o, val |-> b, from |-> w] : o \in FlipOffsets, b \in {"bit0", "bit3", "bit7"}, w \in {"start", "end"}}
           \cup {[loader |-> "grb", kind |-> "cut", at |-> f, val |-> "0", from |-> "start"] : f \in CutFractions}
           \cup {[loader |-> "grb", kind |-> "splice", at |-> f, val |-> g, from |-> "start"] : f \in CutFractions, g \in {"head", "tail", "self"}}
           \cup {[loader |-> l, kind |-> k, at |-> c, val |-> v, from |-> "start"] : l \in {"grl", "jsonrule", "jsonfact"}, k \in {"cut", "insert", "repeat"},
-                   c \in TextCuts, v \in {"bignum", "deep", "quote", "nul", "brace", "longname", "unicode", "blank"}}
+                   c \in TextCuts, v \in {"bignum", "deep", "quote", "nul", "brace", "longname", "unicode", "blank", "longchain"}}
 Outcome(f) == "Bounded"     \* a result or an error; no panic, abort, hang or allocation far beyond the input
 
 VARIABLE case
